@@ -310,7 +310,7 @@ def needs_gap(prev: str, nxt: str) -> bool:
 
 
 COMMENT_WORDS = ["c", "note", "x y", "todo: fix", "a | b", "'q'", "é", "1>x", "/* in */", ";", "𝔘𝔘 wide",
-                 "first line\n   second line", "\n * boxed\n * comment\n ", "a\n\nb", "\u3000wide blank first", "\u00a0nbsp first"]
+                 "first line\n   second line", "\n * boxed\n * comment\n ", "a\n\nb", "\u3000wide blank first", "\u00a0nbsp first", "x *", "***", "", "banner ***", "* / * /"]
 
 
 def random_gap(rng: random.Random, prev: str, nxt: str, toplevel: bool, p_comment=0.25):
